@@ -302,6 +302,9 @@ fn plan_inner(prop: &str, tier: &str) -> Option<Plan> {
                 for (n, l, sh) in read {
                     jobs.extend(sharded(prop, "lockstep", f, tier, json!({"n": n, "max_l": l, "mode": "read"}), sh));
                 }
+                // bigger structured graphs, light transcript: (max nodes of the large families, k of the priority-queue family, shards)
+                let (ln, lk, lsh) = if tier == "quick" { (18, 3, 8) } else { (34, 4, 16) };
+                jobs.extend(sharded(prop, "lockstep", f, tier, json!({"n": ln, "max_l": lk, "mode": "light"}), lsh));
                 let muts: Vec<(usize, usize, usize)> = if tier == "quick" { vec![(2, 4, 2), (3, 3, 2)] } else { vec![(2, 5, 2), (3, 4, 2), (4, 3, 1)] };
                 for (n, l, v) in muts {
                     jobs.push(job(prop, "lockstep", f, tier, json!({"n": n, "max_l": l, "mode": "mutate", "vals": v})));
@@ -310,7 +313,7 @@ fn plan_inner(prop: &str, tier: &str) -> Option<Plan> {
             Some(Plan {
                 jobs,
                 level: "model_checking".into(),
-                rule: "lock-step product exploration: (a) BFS over the plain flavour's adjacency state space, every transition applied to a plain and a sync object built from the same history, returns and complete observations compared; (b) on every canonical shape the whole read-only API (queries, comparison operators, edge equality, every search/ordering configuration with every filter subset, container calls, scc, DOT, JSON/CBOR) is run on both flavours and the transcripts compared entry by entry. evaluations = transitions + transcript entries compared".into(),
+                rule: "lock-step product exploration: (a) BFS over the plain flavour's adjacency state space, every transition applied to a plain and a sync object built from the same history, returns and complete observations compared; (b) on every canonical shape the whole read-only API (queries, comparison operators, edge equality, every search/ordering configuration with every filter subset, container calls, scc, DOT, JSON/CBOR) is run on both flavours and the transcripts compared entry by entry; (c) a lighter transcript (every traversal kind x transpose x {no target, last node, the root} x every terminal x both builder orders from three roots with a recording closure, scc, DOT, JSON) on the large structured families (chains, cycles, fans of 2..18 nodes quick / 2..34 thorough plus every single extra edge; the largest size also with descending and all-equal node values) and on the priority-queue family (root, k children, k grandchildren, every assignment of the values 1..2k; k = 3 quick, 4 thorough). evaluations = transitions + transcript entries compared".into(),
                 bounds: json!({"quick": "read: (2 nodes,<=3 edges),(3,<=3), each with distinct and with all-equal node values; mutate: (2,4,2 values),(3,3,2)", "thorough": "read: (2,4),(3,3),(4,2); mutate: (2,5,2),(3,4,2),(4,3,1)"}),
                 exhaustive: true,
                 assumptions: vec![
